@@ -227,6 +227,7 @@ prop("C03",
 prop("C15",
      level="exploration",
      parts=[{"engine": "chan", "race": True}],
+     race_violation_scope=["transport/"],
      floor={"quick": 100, "thorough": 2000},
      child_timeout={"quick": 900, "thorough": 3000},
      rule="Histories of 12-36 steps on one live session, in both roles (server following a roaming client; client following a "
